@@ -141,6 +141,7 @@ def check(rep, tier, seed, specs=None, n_override=None):
             continue
         nontriv = bool(r.get('n_out')) if 'n_out' in r else bool(r.get('nontrivial'))
         rep.add_case(nontriv, r.get('feature'), r.get('sample'))
+        rep.add_class_case((r.get('spec') or {}).get('stratum'))
         for k, v in (r.get('counters') or {}).items():
             rep.count(k, v)
         spec = r.get('spec')
